@@ -31,6 +31,10 @@ NOTES = {
  "C05-w5m2": "missed at first: include trees had at most 9 files, the change deadlocks only with 8 files in flight that each wait to start an include. Added WideLayout (root with 8-14 children that each include 1-2 files) to C05 and C19; then caught (deadlock).",
  "C06-w5m2": "missed at first: universe files never listed a commodity twice. The weights-ties workload now does at some rate; then caught (different tables between runs).",
  "C14-w5m2": "missed at first: no workload passed --cpuprofile, and runtime/pprof could not run inside a bubble. pprof.StartCPUProfile/StopCPUProfile are now stubbed by the instrumenter, and the flags sub-check has must-fail argv variants (missing journal, with and without --cpuprofile); then caught (error-swallowed).",
+ "C09-w6m2": "missed at first: no description contained a percent sign. Added '30% off' and 'discount 100%' to the pool; then caught (print-not-idempotent / printed journal rejected).",
+ "C15-w6m2": "missed at first: infer's candidate accounts were ASCII only. Added Expenses:Büro and Expenses:Café to the training accounts; then caught (output-unparseable).",
+ "C18-w6m2": "missed at first: C18 never ran a second command after a crash. Added crash-then-rerun (every crash image with leftovers is the starting point of an undisturbed run of the same command, and of a run after the journal was shortened; the result must equal that of a run without leftovers); simfs.CreateTemp now skips existing names like os.CreateTemp; then caught (rerun-after-crash-corrupts:edited).",
+ "C20-w6m2": "caught by C06 at once; C20's own run first ended with exit 2 because the change produces two map keys that render alike (same instant, different time.Location), whose relative order is Go's own, so the replay did not reproduce. Such violations are now confirmed with up to 12 replays and dropped with a NOTE if they never reproduce; C20 then reports it (wrong-weight).",
 }
 DROPPED = [
  "C04 (wave 2, second change): Builder.Build skips the day sort; the same idea as C05-m2 and no longer applicable after fix 281999b.",
@@ -40,6 +44,8 @@ DROPPED = [
  "C03 (wave 5, second change): Normalize marks commodities settled at dequeue; the same change as C12-m1.",
  "C06 (wave 5, first change): append(includedBy, file) in parseRec; the same change as C19-m2.",
  "C02 (wave 5, second change): Totals summed over leaf nodes only; the same idea as C01-m2.",
+ "C12 (wave 6, first change): lost re-check in commodity.Registry.Get; the same change as C05-m1.",
+ "C04 (wave 6, first change): append(includedBy, file) in parseRec; the same change as C19-m2.",
 ]
 
 rows = []
